@@ -1384,7 +1384,7 @@ class MultiAgentRLAlgorithm(EvolvableAlgorithm, ABC):
         :return: Stacked observations
         :rtype: torch.Tensor
         """
-        obs = list(obs.values())
+        obs = [obs[agent_id] for agent_id in self.agent_ids]
         if isinstance(self.single_space, spaces.Dict):
             processed_obs = {}
             for key, space in self.single_space.spaces.items():
